@@ -206,4 +206,41 @@ theorem contPeriod_eq (o : Obj) (h : o.Inv) (hk : o.kind = .cont) (f : AP) :
   simp only [Obj.view] at this ⊢
   simp only [this]
 
+/-! ### The strict machine (`stepS`, `runS`) -/
+
+theorem stepS_false (hoyOf : Nat → Rat) (o : Obj) (op : Op) : stepS false hoyOf o op = step hoyOf o op := by
+  unfold stepS
+  have : strictRefuses false o op = false := by
+    cases op <;> simp [strictRefuses]
+    cases o.kind <;> rfl
+  rw [this]
+  rfl
+
+theorem stepS_cases (strict : Bool) (hoyOf : Nat → Rat) (o : Obj) (op : Op) :
+    (strictRefuses strict o op = true ∧ stepS strict hoyOf o op = (o, .err .assert)) ∨
+    (strictRefuses strict o op = false ∧ stepS strict hoyOf o op = step hoyOf o op) := by
+  unfold stepS
+  cases h : strictRefuses strict o op
+  · exact Or.inr ⟨rfl, by simp⟩
+  · exact Or.inl ⟨rfl, by simp⟩
+
+/-- The side condition along a history of the strict machine: a cull that the strict class refuses needs none. -/
+def CoherentS (strict : Bool) (hoyOf : Nat → Rat) : Obj → List Op → Prop
+  | _, [] => True
+  | o, op :: ops => (strictRefuses strict o op = true ∨ op.coherentAt o) ∧
+      CoherentS strict hoyOf (stepS strict hoyOf o op).1 ops
+
+theorem runS_inv (strict : Bool) (hoyOf : Nat → Rat) : ∀ (ops : List Op) (o : Obj), o.Inv →
+    CoherentS strict hoyOf o ops → (runS strict hoyOf o ops).1.Inv
+  | [], o, h, _ => h
+  | op :: ops, o, h, hc => by
+    simp only [runS]
+    apply runS_inv strict hoyOf ops _ _ hc.2
+    rcases stepS_cases strict hoyOf o op with ⟨_, e⟩ | ⟨hr, e⟩
+    · rw [e]; exact h
+    · rw [e]
+      rcases hc.1 with h1 | h1
+      · rw [hr] at h1; cases h1
+      · exact step_inv hoyOf o op h h1
+
 end Filter
